@@ -490,12 +490,12 @@ Proof.
     eapply holds_bind; [apply add_defaults_T; exact H2|]. intros st3 H3.
     unfold vres_to_res. destruct (validate c (mt st3)); cbn [holds]; auto.
   - destruct (is_set s_ignore_errors c); [|exact Hs].
-    pose proof (add_env_T st Hs) as He.
-    destruct (add_env c st) as [s1|e1 s1|x1]; cbn [holds] in He; [| |exact I].
-    + pose proof (add_defaults_T s1 He) as Hd.
-      destruct (add_defaults c s1) as [s2|e2 s2|x2]; cbn [holds] in Hd |- *; auto.
-    + pose proof (add_defaults_T s1 He) as Hd.
-      destruct (add_defaults c s1) as [s2|e2 s2|x2]; cbn [holds] in Hd |- *; auto.
+    pose proof (resolve_pending_T st Hs) as Hr.
+    destruct (resolve_pending c st) as [s0|e0 s0|x0]; cbn [holds] in Hr; [| |exact I].
+    all: pose proof (add_env_T s0 Hr) as He.
+    all: destruct (add_env c s0) as [s1|e1 s1|x1]; cbn [holds] in He; [| |exact I].
+    all: pose proof (add_defaults_T s1 He) as Hd.
+    all: destruct (add_defaults c s1) as [s2|e2 s2|x2]; cbn [holds] in Hd |- *; auto.
 Qed.
 End Level.
 
